@@ -7,6 +7,7 @@ The local field function `F` is arbitrary: the theorems hold for every source cl
 -/
 import MagpyVerif.Lemmas.Level2Compose
 import MagpyVerif.Lemmas.OctaCarrier
+import MagpyVerif.Lemmas.Level2Post
 import Mathlib.Algebra.GroupWithZero.Action.Units
 import Mathlib.Algebra.Ring.Int.Units
 namespace MagpyVerif.C03
@@ -126,6 +127,157 @@ example : ∃ (entries : List (Entry ℤˣ ℤ)) (sensors : List (Sens ℤˣ ℤ
    by simp [Entry.leaves], by simp [Sens.WF, pixNum], by simp, by simp⟩
 
 
+/-! ### after the post-processing: pixel_agg (any reduction), sumup, squeeze, dataframe (c03post)
+
+`covariance_end_to_end` above is about the tensor BEFORE pixel_agg / sumup / squeeze.  The code's order is: collection
+sums → per sensor: rotation into the sensor frame and handedness flip of every pixel value → reshape / split into
+sensors → `pixel_agg_func` over each sensor's own pixels → `sumup` over the source axis → squeeze / expand_dims /
+dataframe (`Model/Level2.getBHF`, `dataframeF`; the `Agg` versions the integer driver runs are the instances
+`Agg.fn`, `getBH_eq_F`).  Because every pixel value is already expressed in the sensor's frame when it is aggregated,
+NO property of the reduction is needed: -/
+section post
+variable [BEq G] [LawfulBEq G]
+
+/-- **C03 after post-processing, Sensor observers**: for any common rigid motion `(Q, t)` of all source entries (bare or
+nested) and all sensors along their whole paths, the FINAL result of getBH_level2 — error exit or shape and every
+value, after `pixel_agg` with ANY function `f` of the pixel list (`max`, `min`, `median`, `std`, … ; `none` = no
+pixel_agg), after `sumup`, after `squeeze` — is unchanged; all pixel shapes (also different ones per sensor), either
+handedness, any path lengths. -/
+theorem covariance_after_postprocessing (flipX : V → V) (Q : G) (t : V) (entries : List (Entry G V))
+    (sensors : List (Sens G V)) (sumup squeeze : Bool) (agg : Option (List V → V))
+    (hs : ∀ k ∈ sensors, k.WF) :
+    getBHF flipX (entries.map (Entry.moved Q t)) (sensors.map (Sens.moved Q t)) sumup squeeze agg =
+      getBHF flipX entries sensors sumup squeeze agg :=
+  getBHF_moved flipX Q t entries sensors sumup squeeze agg hs
+
+/-- the same for `output="dataframe"`: the rows (index tuple, value) are unchanged -/
+theorem covariance_after_postprocessing_dataframe (flipX : V → V) (Q : G) (t : V) (entries : List (Entry G V))
+    (sensors : List (Sens G V)) (sumup : Bool) (agg : Option (List V → V)) (hs : ∀ k ∈ sensors, k.WF) :
+    (dataframeF flipX (entries.map (Entry.moved Q t)) (sensors.map (Sens.moved Q t)) sumup agg).map dataframeRows =
+      (dataframeF flipX entries sensors sumup agg).map dataframeRows :=
+  dataframeF_moved flipX Q t entries sensors sumup agg hs
+
+/-- … and for the function the integer driver runs (`getBH` with the named reductions sum / min / max, `vmin`, `vmax`
+arbitrary binary operations) -/
+theorem covariance_after_postprocessing_named (flipX : V → V) (vmin vmax : V → V → V) (Q : G) (t : V)
+    (entries : List (Entry G V)) (sensors : List (Sens G V)) (sumup squeeze : Bool) (agg : Agg)
+    (hs : ∀ k ∈ sensors, k.WF) :
+    getBH flipX vmin vmax (entries.map (Entry.moved Q t)) (sensors.map (Sens.moved Q t)) sumup squeeze agg =
+      getBH flipX vmin vmax entries sensors sumup squeeze agg := by
+  rw [getBH_eq_F, getBH_eq_F]
+  exact getBHF_moved flipX Q t entries sensors sumup squeeze _ hs
+
+/-- **C03 after post-processing, position observers**: sources and observer positions moved together — the final
+array has the same shape and every vector is rotated by `Q`, after `sumup` (a sum, commutes with the rotation) and
+`squeeze`.  With a `pixel_agg` the reduction must commute with the rotation (`f (l.map (Q • ·)) = Q • f l`; true of
+`sum` and `mean`, false of `max / min / median / std`, which act componentwise in the GLOBAL frame here because a
+position observer has the unit orientation — `position_observers_max_not_rotated` below). -/
+theorem covariance_positions_after_postprocessing (flipX : V → V) (Q : G) (t : V) (entries : List (Entry G V))
+    (X : List V) (sumup squeeze : Bool) (agg : Option (List V → V))
+    (hagg : ∀ f, agg = some f → ∀ l : List V, f (l.map (Q • ·)) = Q • f l) :
+    getBHF flipX (entries.map (Entry.moved Q t)) [obsSensor (X.map fun x => Q • x + t)] sumup squeeze agg =
+      (getBHF flipX entries [obsSensor X] sumup squeeze agg).map
+        (fun o => { o with data := o.data.map (Q • ·) }) :=
+  getBHF_positions_moved flipX Q t entries X sumup squeeze agg hagg
+
+/-- without pixel_agg the hypothesis is void -/
+theorem covariance_positions_after_postprocessing_no_agg (flipX : V → V) (Q : G) (t : V)
+    (entries : List (Entry G V)) (X : List V) (sumup squeeze : Bool) :
+    getBHF flipX (entries.map (Entry.moved Q t)) [obsSensor (X.map fun x => Q • x + t)] sumup squeeze none =
+      (getBHF flipX entries [obsSensor X] sumup squeeze none).map
+        (fun o => { o with data := o.data.map (Q • ·) }) :=
+  getBHF_positions_moved flipX Q t entries X sumup squeeze none (fun _ h => by cases h)
+
+/-- `sum` (as the model's `aggList .sum`) commutes with every rotation, so `pixel_agg="sum"` over position observers is
+covered by `covariance_positions_after_postprocessing` -/
+theorem sum_commutes_with_rotation (vmin vmax : V → V → V) (Q : G) (l : List V) :
+    aggList .sum vmin vmax (l.map (Q • ·)) = Q • aggList .sum vmin vmax l := by
+  cases l with
+  | nil => simp [aggList]
+  | cons v vs =>
+    simp only [List.map_cons, aggList]
+    induction vs generalizing v with
+    | nil => rfl
+    | cons w ws ih => simp only [List.map_cons, List.foldl_cons, ← smul_add]; exact ih (v + w)
+end post
+
+/-! #### the order in the model matters: aggregate-then-rotate is NOT covariant
+
+`Model/Level2.tensorAggFirst` is the seeded change (pixel_agg applied to the global-frame values BEFORE the rotation
+into the sensor frame): same stages, other order.  On the driver's carrier, with `max`: a sensor with the two pixels
+(1,0,0), (2,0,0) reading the field B(x) = x.  Turning source and sensor together by 180° about z must not change the
+reading (2,0,0) (right order, `covariance_after_postprocessing`); in the wrong order the maximum is taken over the
+global values (−1,0,0), (−2,0,0) and then rotated: (1,0,0). -/
+section wrongOrder
+open Level2.Example
+
+/-- componentwise maximum over the pixel list (`np.max(..., axis=pixel axes)`), the model's `aggList .max` -/
+def maxV : List (V3 Int) → V3 Int := aggList .max exMin exMax
+
+def rotZ180 : M3 Int := ⟨⟨-1, 0, 0⟩, ⟨0, -1, 0⟩, ⟨0, 0, 1⟩⟩
+def wSrc : SrcZ := ⟨[⟨0, 0, 0⟩], [1], fun x => x⟩
+def wEntries : List EntryZ := [.leaf wSrc]
+def wSensors : List SensZ := [⟨[⟨0, 0, 0⟩], [1], [⟨1, 0, 0⟩, ⟨2, 0, 0⟩], [2], false⟩]
+
+theorem wLeaves : wEntries.flatMap Entry.leaves = [wSrc] := by simp [wEntries, Entry.leaves]
+theorem wLeaves_moved :
+    (wEntries.map (Entry.movedOp rotZ180 0)).flatMap Entry.leaves = [wSrc.movedOp rotZ180 0] := by
+  simp [wEntries, Entry.leaves, Entry.movedOp]
+
+/-- **witness: aggregate-then-rotate with `max` is not invariant under a common rigid motion** (so the theorem above is
+about the right order, and the order in the model is not immaterial) -/
+theorem aggregate_then_rotate_not_covariant :
+    tensorAggFirst exFlip maxV wEntries wSensors = [[[[⟨2, 0, 0⟩]]]] ∧
+    tensorAggFirst exFlip maxV (wEntries.map (Entry.movedOp rotZ180 0)) (wSensors.map (Sens.movedOp rotZ180 0)) =
+      [[[[⟨1, 0, 0⟩]]]] ∧
+    tensorAggFirst exFlip maxV (wEntries.map (Entry.movedOp rotZ180 0)) (wSensors.map (Sens.movedOp rotZ180 0)) ≠
+      tensorAggFirst exFlip maxV wEntries wSensors := by
+  have h1 : tensorAggFirst exFlip maxV wEntries wSensors = [[[[⟨2, 0, 0⟩]]]] := by
+    unfold tensorAggFirst; simp only [wLeaves]; decide
+  have h2 : tensorAggFirst exFlip maxV (wEntries.map (Entry.movedOp rotZ180 0))
+      (wSensors.map (Sens.movedOp rotZ180 0)) = [[[[⟨1, 0, 0⟩]]]] := by
+    unfold tensorAggFirst; simp only [wLeaves_moved]; decide
+  refine ⟨h1, h2, ?_⟩
+  rw [h1, h2]; decide
+
+/-- … while the order of the code gives (2,0,0) for both scenes -/
+theorem rotate_then_aggregate_covariant_on_witness :
+    aggTF maxV (tensor exFlip (wEntries.map (Entry.movedOp rotZ180 0)) (wSensors.map (Sens.movedOp rotZ180 0))) =
+      [[[[⟨2, 0, 0⟩]]]] ∧
+    aggTF maxV (tensor exFlip wEntries wSensors) = [[[[⟨2, 0, 0⟩]]]] := by
+  constructor
+  · unfold tensor; simp only [wLeaves_moved]; decide
+  · unfold tensor; simp only [wLeaves]; decide
+
+/-- and the two orders agree when the reduction commutes with the sensor-frame map (here: `sum`) — the difference is
+exactly the non-linearity -/
+theorem orders_agree_for_sum_on_witness :
+    tensorAggFirst exFlip (aggList .sum exMin exMax) (wEntries.map (Entry.movedOp rotZ180 0))
+        (wSensors.map (Sens.movedOp rotZ180 0)) =
+      aggTF (aggList .sum exMin exMax)
+        (tensor exFlip (wEntries.map (Entry.movedOp rotZ180 0)) (wSensors.map (Sens.movedOp rotZ180 0))) := by
+  unfold tensorAggFirst tensor; simp only [wLeaves_moved]; decide
+
+/-- position observers with `max`: the final value is NOT the rotated one (the hypothesis `hagg` of
+`covariance_positions_after_postprocessing` cannot be dropped): observers (1,0,0), (2,0,0), field B(x) = x, turned by
+180° about z: max over (−1,0,0), (−2,0,0) is (−1,0,0), not Q • (2,0,0) = (−2,0,0) -/
+theorem position_observers_max_not_rotated :
+    aggTF maxV (tensor exFlip (wEntries.map (Entry.movedOp rotZ180 0))
+      [obsSensorOp ([⟨1, 0, 0⟩, ⟨2, 0, 0⟩].map fun x => rotZ180 • x + 0)]) = [[[[⟨-1, 0, 0⟩]]]] ∧
+    aggTF maxV (tensor exFlip wEntries [obsSensorOp [⟨1, 0, 0⟩, ⟨2, 0, 0⟩]]) = [[[[⟨2, 0, 0⟩]]]] ∧
+    rotZ180 • (⟨2, 0, 0⟩ : V3 Int) = ⟨-2, 0, 0⟩ := by
+  refine ⟨?_, ?_, by decide⟩
+  · unfold tensor; simp only [wLeaves_moved]; decide
+  · unfold tensor; simp only [wLeaves]; decide
+end wrongOrder
+
+-- non-vacuity of `covariance_after_postprocessing`: hypotheses as for `covariance_end_to_end` (example above); the
+-- statement covers accepted calls with different pixel shapes per sensor: on the scene `Level2.Example`
+-- (pixel shapes (2,) and (3,)) the call with a reduction is accepted
+open Level2.Example in
+example : ∃ out, getBHF exFlip exEntries exSensorsMixed true false (some maxV) = .ok out :=
+  ⟨_, getBHF_ok _ _ _ _ _ _ (by simp [BadInputF, exEntries, exSensorsMixed, Entry.leaves])⟩
+
 /-! ### on the carrier the driver computes with (AUDIT X1)
 
 The theorems above are about the model functions at an abstract `Group G`; the driver (and through the
@@ -168,6 +320,30 @@ theorem covariance_positions_end_to_end_on_driver_carrier (flipX : V3 Int → V3
   rw [← tensor_at_Oct_eq_at_M3Int, ← tensor_at_Oct_eq_at_M3Int] at h
   simpa only [List.map_map, Function.comp_def, Entry.moved_toM3, List.map_cons, List.map_nil,
     obsSensor_toM3, Oct.coe_smul] using h
+
+/-- **C03 after post-processing on the driver's carrier**: with the integer matrix operations (`⁻¹` = transpose), for an
+octahedral `Q` and octahedral orientation matrices in the scene, the final result (any reduction, sumup, squeeze) of
+the moved scene is that of the original one -/
+theorem covariance_after_postprocessing_on_driver_carrier (flipX : V3 Int → V3 Int) (Q : M3 Int) (t : V3 Int)
+    (entries : List EntryZ) (sensors : List SensZ) (sumup squeeze : Bool) (agg : Option (List (V3 Int) → V3 Int))
+    (hQ : IsOct Q) (heo : ∀ e ∈ entries, e.RotsOct) (hso : ∀ k ∈ sensors, k.RotsOct) (hs : ∀ k ∈ sensors, k.WF) :
+    getBHF flipX (entries.map (Entry.movedOp Q t)) (sensors.map (Sens.movedOp Q t)) sumup squeeze agg =
+      getBHF flipX entries sensors sumup squeeze agg := by
+  obtain ⟨es, rfl⟩ := exists_oct_entries entries heo
+  obtain ⟨ks, rfl⟩ := exists_oct_sensors sensors hso
+  obtain ⟨q, rfl⟩ := Oct.exists_toM3_eq hQ
+  have h := covariance_after_postprocessing flipX q t es ks sumup squeeze agg
+    (fun k h => (Sens.mapG_WF Oct.toM3 k).mp (hs _ (List.mem_map_of_mem h)))
+  rw [← getBHF_mapG octHom, ← getBHF_mapG octHom flipX es ks] at h
+  simpa only [List.map_map, Function.comp_def, Entry.moved_toM3, Sens.moved_toM3] using h
+
+-- non-vacuity: the witness scene above meets the hypotheses (so the right order IS invariant there by this theorem,
+-- not only by evaluation)
+example : getBHF Level2.Example.exFlip (wEntries.map (Entry.movedOp rotZ180 0)) (wSensors.map (Sens.movedOp rotZ180 0))
+      true true (some maxV) = getBHF Level2.Example.exFlip wEntries wSensors true true (some maxV) :=
+  covariance_after_postprocessing_on_driver_carrier _ rotZ180 0 wEntries wSensors true true _
+    (by decide) (by simp [wEntries, wSrc, Entry.RotsOct, Entry.leaves]; decide) (by simp [wSensors, Sens.RotsOct]; decide)
+    (by simp [wSensors, Sens.WF, pixNum])
 
 -- non-vacuity on driver-style data (`Level2.DriverExample`): a nested entry whose first leaf is rotated by 90°
 -- about z at its second path entry, a left-handed two-step sensor rotated by 90° about z at its first step,
